@@ -13,12 +13,17 @@ import (
 type RefType struct {
 	Scope Scope
 	Name  string
+	// visiting is set while the referenced type is being visited
+	// through this reference: reaching the same reference again
+	// means the type contains itself, which no signature can
+	// describe.
+	visiting bool
 }
 
 // NewRefType is a contructor for the representation of a type reference to be
 // resolved with a TypeSet.
 func NewRefType(name string, scope Scope) signature.Type {
-	return &RefType{scope, name}
+	return &RefType{Scope: scope, Name: name}
 }
 
 // Signature returns the signature of the referenced type. If the
@@ -26,7 +31,12 @@ func NewRefType(name string, scope Scope) signature.Type {
 // with a name describing the error.
 func (r *RefType) Signature() string {
 	t, err := r.Scope.Search(r.Name)
+	if err == nil && r.visiting {
+		err = fmt.Errorf("recursive type %s", r.Name)
+	}
 	if err == nil {
+		r.visiting = true
+		defer func() { r.visiting = false }()
 		return t.Signature()
 	}
 	return signature.NewStructType(err.Error(), nil).Signature()
@@ -114,7 +124,9 @@ func (r *RefType) Reader() signature.TypeReader {
 
 func (r *RefType) Type() reflect.Type {
 	t, err := r.Scope.Search(r.Name)
-	if err == nil {
+	if err == nil && !r.visiting {
+		r.visiting = true
+		defer func() { r.visiting = false }()
 		return t.Type()
 	}
 	return reflect.TypeOf((*error)(nil))
